@@ -409,6 +409,7 @@ package gldap
 //@   shapes WithResponseCode
 //@   requires reqOK(r)
 //@   ensures  result != nil && fresh(result) && result.baseResponse != nil && fresh(result.baseResponse) && result.messageID == msgID(r.message)
+//@   ensures  len(result.controls) == 0
 //@   ensures  result.code == int16(cond(has_WithResponseCode, arg_WithResponseCode, 0)) && result.diagMessage == "" && result.matchedDN == ""
 //@   panics false
 //@   modifies nothing
@@ -441,9 +442,19 @@ package gldap
 //@   modifies cell([]byte)@bytes, cell(uint8)@none
 //@ func (*gldap.Entry).GetAttributeValues
 //@   requires e != nil && forall(j, 0, len(e.Attributes), e.Attributes[j] != nil)
+//@   ensures[C19,C20] exists(k, 0, len(e.Attributes) + 1, forall(j, 0, k, e.Attributes[j].Name != attribute) && (k < len(e.Attributes) ==> e.Attributes[k].Name == attribute && result == e.Attributes[k].Values) && (k == len(e.Attributes) ==> len(result) == 0))
 //@   panics false
 //@   modifies nothing
 //@   tags C16 C19
+//@ loop 1
+//@   invariant forall(j, 0, rangeindex + 1, e.Attributes[j].Name != attribute)
+//@ func (*gldap.Request).GetSimpleBindMessage
+//@   requires r != nil
+//@   ensures  typeIs(r.message, *SimpleBindMessage) ==> err == nil && result0 == r.message.(*SimpleBindMessage)
+//@   ensures  !typeIs(r.message, *SimpleBindMessage) ==> err != nil && result0 == nil
+//@   panics false
+//@   modifies nothing
+//@   tags C19
 //@ pure attrPaired(e *EntryAttribute) bool = len(e.Values) == len(e.ByteValues) && forall(j, 0, len(e.Values), bytestr(e.ByteValues[j]) == e.Values[j])
 //@ func (*gldap.EntryAttribute).AddValue
 //@   requires e != nil && attrPaired(e)
@@ -800,7 +811,7 @@ package gldap
 // ResponseWriter, upgrade the connection with Request.StartTLS; it may panic.
 //@ functype gldap.HandlerFunc
 //@   params f HandlerFunc, w *ResponseWriter, r *Request
-//@   requires f != nil && w != nil && r != nil
+//@   requires f != nil && w != nil && r != nil && wOK(w) && !held(w.writerMu) && reqOK(r)
 //@   exit     r.conn != nil ==> connIO(r.conn)
 //@   exit     unchanged(G_held) && unchanged(G_rheld) && unchanged(G_wgcnt)
 //@   sets G_ncalls[0] = G_ncalls[0] + 1
@@ -959,18 +970,21 @@ package gldap
 //@   tags C04
 
 //@ func (*gldap.baseResponse).SetResultCode
+//@   inline
 //@   requires l != nil
 //@   ensures  l.code == int16(code) && l.messageID == old(l.messageID) && l.diagMessage == old(l.diagMessage) && l.matchedDN == old(l.matchedDN)
 //@   panics false
 //@   modifies baseResponse.code
 //@   tags C04
 //@ func (*gldap.baseResponse).SetDiagnosticMessage
+//@   inline
 //@   requires l != nil
 //@   ensures  l.diagMessage == msg && l.messageID == old(l.messageID) && l.code == old(l.code) && l.matchedDN == old(l.matchedDN)
 //@   panics false
 //@   modifies baseResponse.diagMessage
 //@   tags C04
 //@ func (*gldap.baseResponse).SetMatchedDN
+//@   inline
 //@   requires l != nil
 //@   ensures  l.matchedDN == dn && l.messageID == old(l.messageID) && l.code == old(l.code) && l.diagMessage == old(l.diagMessage)
 //@   panics false
